@@ -59,6 +59,24 @@ func damage(b []byte, file string, cfg Cfg, rnd *rand.Rand) ([]byte, []string) {
 		}
 		return rnd.Intn(len(b))
 	}
+	// now and then aim at the database-header fields inside the image of page 1 (page size at 16,
+	// size in pages at 28): the record checksum samples every 200th byte only, so damage there is
+	// played back into the database
+	if file == "journal" && rnd.Intn(10) == 0 && len(b) >= cfg.Sector+4+32 && binary.BigEndian.Uint32(b[cfg.Sector:]) == 1 {
+		off := cfg.Sector + 4 + []int{16, 17, 28, 28, 29, 31}[rnd.Intn(6)]
+		if rnd.Intn(2) == 0 {
+			bit := byte(1) << uint(rnd.Intn(8))
+			b[off] ^= bit
+			ops = append(ops, fmt.Sprintf("flip bit %#x of byte %d (database header inside the record of page 1)", bit, off))
+		} else {
+			field, n := cfg.Sector+4+16, 2
+			if off >= cfg.Sector+4+28 {
+				field, n = cfg.Sector+4+28, 4
+			}
+			copy(b[field:field+n], make([]byte, n))
+			ops = append(ops, fmt.Sprintf("zero %d bytes at %d (database header inside the record of page 1)", n, field))
+		}
+	}
 	for n := 1 + rnd.Intn(3); n > 0; n-- {
 		if len(b) == 0 {
 			break
@@ -206,6 +224,8 @@ func runRandom(p *pool, c rCase, hung *hungSet) (out caseOut) {
 				class = "newdb-empty-dbfile"
 			case sector == 0:
 				class = "sector0"
+			case bound > 1<<20:
+				class = "claims-huge-size" // a header of the journal claims a database of more than 2^20 pages
 			}
 		}
 	} else {
@@ -250,16 +270,21 @@ func runRandom(p *pool, c rCase, hung *hungSet) (out caseOut) {
 		}
 		return d
 	}
+	// a panic is identified by its message; the size-claim class only matters for the time an open takes
+	pclass := class
+	if pclass == "claims-huge-size" {
+		pclass = "random"
+	}
 	switch {
 	case res.Hang:
 		hung.add(class)
 		out.fails = append(out.fails, fail{"C17.no-hang", "hang/" + c.File + "/" + class, detail(map[string]any{"no_answer_for": openDeadline.String()})})
 		return
 	case res.Crash != "":
-		out.fails = append(out.fails, fail{"C17.no-panic", "crash/" + c.File + "/" + class + "/" + norm(res.Crash), detail(map[string]any{"child_died": res.Crash})})
+		out.fails = append(out.fails, fail{"C17.no-panic", "crash/" + c.File + "/" + pclass + "/" + normCrash(res.Crash), detail(map[string]any{"child_died": res.Crash})})
 		return
 	case res.Panic != "":
-		out.fails = append(out.fails, fail{"C17.no-panic", "panic/" + c.File + "/" + class + "/" + norm(res.Panic), detail(map[string]any{"panic": res.Panic, "stack": res.Stack})})
+		out.fails = append(out.fails, fail{"C17.no-panic", "panic/" + c.File + "/" + pclass + "/" + norm(res.Panic), detail(map[string]any{"panic": res.Panic, "stack": res.Stack})})
 		return
 	}
 	out.openErr = res.Err
@@ -291,8 +316,14 @@ func runRandom(p *pool, c rCase, hung *hungSet) (out caseOut) {
 		return
 	}
 	if fi.Size() > int64(bound)*int64(ps) {
-		out.fails = append(out.fails, fail{"C17.no-write-outside-the-database-pages", "oob-final/" + c.File + "/" + class + "/size",
-			detail(map[string]any{"size_after": fi.Size()})})
+		sig := "oob-final/" + c.File + "/" + class + "/size"
+		if c.File == "journal" && len(pages) > 0 {
+			// LiteFS was seen writing a record at a page number outside the database (and then
+			// failed before its final truncate): the file kept the page
+			sig = "oob-final/journal/record-pgno-outside-database/size"
+		}
+		out.fails = append(out.fails, fail{"C17.no-write-outside-the-database-pages", sig,
+			detail(map[string]any{"size_after": fi.Size(), "page_writes_outside": pages, "open_error": res.Err})})
 	}
 	f, err := os.Open(filepath.Join(dbd, "database"))
 	if err != nil {
